@@ -3,7 +3,9 @@ One JSON file per built check in harness/registry.d/<ID>.json with keys level, d
 import json
 from pathlib import Path
 
-CHECKS = {p.stem: json.loads(p.read_text()) for p in sorted((Path(__file__).parent / "registry.d").glob("C*.json"))}
+# a check is claimed in MANIFEST.json only once the lead has accepted it: its id is listed in harness/ready.txt
+READY = set((Path(__file__).parent / "ready.txt").read_text().split())
+CHECKS = {p.stem: json.loads(p.read_text()) for p in sorted((Path(__file__).parent / "registry.d").glob("C*.json")) if p.stem in READY}
 NOT_APPLICABLE = {
  "C48": "relational statement between four floating-point array back-ends: no abstract state or transition, the only oracle is another interface (differential testing, a different family)",
  "C62": "numerical quadrature / SCF / FCI compared with a second numerical code; nothing lives in an exact domain a TLA+ specification can hold",
